@@ -1381,6 +1381,11 @@ func (c *Client) sendSingleMsg(client *smtp.Client, message *Msg) error {
 	defer c.mutex.RUnlock()
 	escSupport, _ := client.Extension("ENHANCEDSTATUSCODES")
 
+	// The delivery state of the message reflects this sending attempt only. A SendError of an
+	// earlier, failed attempt must not survive a successful delivery (and vice versa)
+	message.sendError = nil
+	message.isDelivered = false
+
 	if message.encoding == NoEncoding {
 		if ok, _ := client.Extension("8BITMIME"); !ok {
 			return &SendError{Reason: ErrNoUnencoded, isTemp: false, affectedMsg: message}
